@@ -386,8 +386,14 @@ func cmdCheck(args []string) int {
 			continue
 		}
 		o := &Opts{Workers: 16, Preempt: -1, MaxZeros: to.MaxZeros, Thorough: thorough, MaxPaths: to.MaxPaths, BudgetS: to.BudgetS, StepCap: to.StepCap, ConcCap: to.ConcCap, Samples: 3, Validate: 3, Seed: seed}
+		// one worker's whole session is replayed through a second solver and the verdicts compared
+		o.Cross, o.CrossMaxQ, o.CrossS = []string{"z3-new"}, 150, 60
 		if thorough {
 			o.Validate = 10
+			o.Cross, o.CrossMaxQ, o.CrossS = []string{"z3-new", "cvc5"}, 1000, 300
+		}
+		if os.Getenv("VERIF_NOCROSS") != "" {
+			o.Cross = nil
 		}
 		if ob.NoValidate {
 			o.Validate = 0
@@ -512,6 +518,15 @@ func cmdCheck(args []string) int {
 					fmt.Printf("INCONCLUSIVE: property=%s %s: translator validation mismatch: %s\n", prop, ob.Fn, cut(m, 600))
 					ev.Coverage.Inconclusive = append(ev.Coverage.Inconclusive, "validation mismatch: "+cut(m, 600))
 				}
+				inconclusive = true
+			}
+		}
+		oe.Cross = res.Cross
+		for _, c := range res.Cross {
+			if c.Disagree > 0 || c.Errors > 0 {
+				msg := fmt.Sprintf("%s: second solver %s disagrees with the primary solver on %d of %d replayed queries (%d error lines)", ob.Fn, c.Solver, c.Disagree, c.Queries, c.Errors)
+				fmt.Printf("INCONCLUSIVE: property=%s %s\n", prop, msg)
+				ev.Coverage.Inconclusive = append(ev.Coverage.Inconclusive, msg)
 				inconclusive = true
 			}
 		}
